@@ -146,9 +146,12 @@ def r4(ctx):
   prog = ctx.prog
   f = prog.func(R, 'ResurrectorSink.Close')
   why = 'after the client is closed no further reconnection attempts are made'
+  kill_paths = 0
   for ev, ex in enum_paths(ctx, f):
     fs = facts(ev)
     w = dict((U(e.node.targets[0]), U(e.node.value)) for e in ev if e.kind == 'stmt' and isinstance(e.node, ast.Assign))
+    if any(e.kind == 'call' and call_attr(e.node) == 'kill' for e in ev):
+      kill_paths += 1
     if ('self._resurrector', True) in fs:
       kills = [e.node for e in ev if e.kind == 'call' and call_attr(e.node) == 'kill' and U(e.node.func.value) == 'self._resurrector']
       ok = len(kills) == 1 and any(k.arg == 'block' and U(k.value) == 'False' for k in kills[0].keywords)
@@ -159,6 +162,9 @@ def r4(ctx):
       cl = [e for e in ev if e.kind == 'call' and U(e.node.func) == 'self.next_sink.Close']
       ctx.ob('C09.R4', f, 'Close unsubscribes from and closes the current sink', len(un) == 1 and len(cl) == 1, 'unsubscribes %d, closes %d' % (len(un), len(cl)),
              why + ' (a fault of the sink being closed must not start a new retry loop)')
+
+
+  ctx.ob('C09.R4', f, 'Close has a path that kills a running retry greenlet', kill_paths >= 1, 'no path of Close kills the retry greenlet', why)
 
 
 def r5(ctx):
